@@ -32,7 +32,7 @@ ASSUMPTIONS = dyncommon.ASSUMPTIONS + [
 FEAT = dict(
     w_try=5, p_guards=3, p_grej=2, n_subscenarios=(0, 1), n_monitors=(0, 1), n_agents=(1, 2),
     w_terminate=1, w_terminatesim=1, p_termwhen=1, p_termsimwhen=1, p_termafter=1, p_ltl=0, p_record=1,
-    w_do=3, w_do_for=2, w_do_until=2, max_steps=(3, 8), compose_try_waits_only=True,
+    w_do=3, w_do_for=2, w_do_until=2, max_steps=(3, 8), compose_try_waits_only=True, p_bind_instance=4,
 )
 BUG_MODELS = ("inv_during_sub", "nested_return")
 
